@@ -474,7 +474,7 @@ def main():
         wanted = [h for h in wanted if re.search(args.only, h)]
     if args.jobs is None:
         args.jobs = int(os.environ.get("VERIF_JOBS", cfg.get("jobs", 16)))
-    timeout_s = args.timeout or cfg.get("timeout_s", {}).get(tier, 600 if tier == "quick" else 2400)
+    timeout_s = args.timeout or cfg.get("timeout_s", {}).get(tier, 1500 if tier == "quick" else 3000)
     evidence_path = os.path.join(os.environ.get("VERIF_EVIDENCE_DIR", os.path.join(VERIF, "evidence")), "%s.json" % prop)
     os.makedirs(os.path.dirname(evidence_path), exist_ok=True)
 
@@ -639,6 +639,7 @@ def main():
             "known_findings_hit": sorted({f["id"] for f, _ in known_hits}),
             "undecided": ["%s: %s" % u for u in undecided[:30]],
             "solver_time_s": round(sum((p["cbmc"].get("solver_s") or 0) for p in per.values()), 2),
+            "verification_time_s_sum_over_harnesses": round(sum((p["duration_ms"] or 0) for p in per.values()) / 1000.0, 1),
             "kani_wall_s": round(kani_wall, 1),
             "partial_run": bool(args.only),
             "exit_code": exit_code,
